@@ -176,7 +176,18 @@ def run_program(rec, hub, seed_rng, steps, letters="abcd", ill_rate=0.3, props=(
                 if region is not None and region.size > 1:
                     bad_rhs = np.array(region + 1000.0, dtype=object)  # other numbers than the region holds
                     bad_rhs.reshape(-1)[int(rng.integers(1, bad_rhs.size))] = ["x", None, "1,5"][int(rng.integers(0, 3))]
-                    if rng.random() < 0.5:
+                    form_ = int(rng.integers(0, 3))
+                    if form_ == 2:
+                        # ... handed over as an ARRAY over the region's dimensions (an array that adopted such values, e.g. read from a file)
+                        try:
+                            with hub.pause():
+                                reg_arr = x[key_ok] if key_ok is not Ellipsis else x.copy()
+                                src_bad = fd.FlodymArray(dims=reg_arr.dims, values=np.zeros(reg_arr.dims.shape))
+                                src_bad.values = bad_rhs.reshape(reg_arr.dims.shape)
+                            return ("write: a cell of an array source cannot be stored", x, [lambda: x.__setitem__(key_ok, src_bad)])
+                        except Exception:
+                            pass
+                    if form_ == 1:
                         bad_rhs = bad_rhs.tolist()
                     return ("write: a cell of the right-hand side cannot be stored", x, [lambda: x.__setitem__(key_ok, bad_rhs)])
             y = pick()
